@@ -16,6 +16,13 @@
 
 namespace vita
 {
+#if defined(VITA_VERIF)
+void (*verif_hook::sched_callback)(int) = nullptr;
+#  define VITA_SCHED_POINT(id) verif_hook::sched_point(id)
+#else
+#  define VITA_SCHED_POINT(id) ((void)0)
+#endif
+
 ///
 /// Creates a new hash table.
 ///
@@ -45,6 +52,7 @@ inline std::size_t cache::index(const hash_t &h) const
 void cache::clear()
 {
   std::unique_lock lock(mutex_);
+  VITA_SCHED_POINT(30);
 
   if (++seal_ == 0)  // wrap around: wipe, or slots of an old epoch revive
   {
@@ -58,6 +66,7 @@ void cache::clear()
   //   s.hash = hash_t();
   //   s.fitness = {};
   // }
+  VITA_SCHED_POINT(31);
 }
 
 ///
@@ -68,8 +77,10 @@ void cache::clear()
 void cache::clear(const hash_t &h)
 {
   std::unique_lock lock(mutex_);
+  VITA_SCHED_POINT(40);
 
   table_[index(h)].hash = hash_t();
+  VITA_SCHED_POINT(41);
 
   // An alternative to invalidate the slot:
   //   table_[index(h)].seal = 0;
@@ -86,9 +97,11 @@ void cache::clear(const hash_t &h)
 fitness_t cache::find(const hash_t &h) const
 {
   std::shared_lock lock(mutex_);
+  VITA_SCHED_POINT(10);
 
   const slot &s(table_[index(h)]);
   const bool ret(seal_ == s.seal && h == s.hash);
+  VITA_SCHED_POINT(11);
 
   if (ret)
     return s.fitness;
@@ -107,6 +120,7 @@ fitness_t cache::find(const hash_t &h) const
 void cache::insert(const hash_t &h, const fitness_t &fitness)
 {
   std::unique_lock lock(mutex_);
+  VITA_SCHED_POINT(20);
 
   slot s;
   s.hash    =       h;
@@ -114,6 +128,7 @@ void cache::insert(const hash_t &h, const fitness_t &fitness)
   s.seal    =   seal_;
 
   table_[index(s.hash)] = s;
+  VITA_SCHED_POINT(21);
 }
 
 ///
